@@ -109,7 +109,9 @@ class Project:
         self.modules: dict[str, Module] = {}
         self.funcs: dict[str, Func] = {}
         self.classes: dict[str, Klass] = {}
+        self.renamed: dict[str, str] = {}      # actual qualified name -> the name the rules know the function by
         self._load()
+        self._apply_wanted_names()
 
     # ------------------------------------------------------------------ loading
     def _load(self) -> None:
@@ -253,6 +255,57 @@ class Project:
         for k in mod.classes.values():
             k.bases = [self.resolve_static(mod, b, None) or ast.unparse(b) for b in k.node.bases]
 
+    # ---------------------------------------------------------------- names the rules know
+    _WANTED = None
+
+    @classmethod
+    def wanted_names(cls) -> set:
+        """Every qualified name of the package that the checker's own sources mention (anchors of rules)."""
+        if cls._WANTED is None:
+            import re
+            out = set()
+            here = Path(__file__).resolve().parent
+            for path in sorted(here.rglob('*.py')):
+                if 'variants' in path.parts:
+                    continue
+                out.update(re.findall(r"""['"](%s(?:\.\w+)+)['"]""" % PKG, path.read_text(encoding='utf-8')))
+            cls._WANTED = out
+        return cls._WANTED
+
+    def _apply_wanted_names(self) -> None:
+        """A function that a rule is anchored on keeps the name the rule knows when it has been moved to a private module
+        and imported back (`from ._metar import okta2code` in wmo.py), or moved to a base class / mixin of the class it
+        was a method of: it is registered - and referred to everywhere - under the name it is reachable by."""
+        for w in sorted(self.wanted_names()):
+            if w in self.funcs or w in self.classes or w in self.modules:
+                continue
+            head, _, tail = w.rpartition('.')
+            target = None
+            if head in self.modules and tail in self.modules[head].imports:
+                t = self._canon(self.modules[head].imports[tail])
+                if t in self.funcs:
+                    target = self.funcs[t]
+            if target is None:
+                k = self.classes.get(head) or self.classes.get(self._canon(head))
+                if k is not None:
+                    target = self.find_method(k, tail)
+                    if target is None:
+                        # moved up: defined by a base class of a class that used to define it? (nothing to do) / moved
+                        # down to every subclass is not a move we follow
+                        pass
+            if target is None or target.qname == w:
+                continue
+            self._rename(target, w)
+
+    def _rename(self, f: 'Func', new: str) -> None:
+        old = f.qname
+        for q in [q for q in self.funcs if q == old or q.startswith(old + '.<locals>.')]:
+            g = self.funcs.pop(q)
+            nq = new + q[len(old):]
+            g.qname = nq
+            self.funcs[nq] = g
+            self.renamed[q] = nq
+
     # ---------------------------------------------------------------- resolving
     def _canon(self, dotted: str) -> str:
         """Follow re-exports inside the package: a.b.c where a.b is a package module and c an
@@ -260,6 +313,7 @@ class Project:
         seen = set()
         while dotted not in seen:
             seen.add(dotted)
+            dotted = self.renamed.get(dotted, dotted)
             if dotted in self.modules or dotted in self.funcs or dotted in self.classes:
                 return dotted
             head, _, tail = dotted.rpartition('.')
@@ -294,7 +348,7 @@ class Project:
             if nm in mod.imports:
                 return self._canon(mod.imports[nm])
             if nm in mod.functions or nm in mod.classes or nm in mod.globals:
-                return f'{mod.name}.{nm}'
+                return self.renamed.get(f'{mod.name}.{nm}', f'{mod.name}.{nm}')
             if hasattr(builtins, nm):
                 return f'builtins.{nm}'
             return None
